@@ -72,6 +72,9 @@ def make_case(rng, i):
     bound = rng.random() < 0.25 and "model" in spec["providers"] and not any(
         cb["provider"] == "model" and cb["name"] in spec["events"] for cb in spec["cbs"].values())
     steps = [{"op": "construct", "val": gen.gen_valuation(rng, spec)}]
+    if rng.random() < 0.3:
+        tgt = rng.choice([s_["id"] for s_ in spec["states"]])
+        steps[0].update(start=tgt, start_expr=c10.value_expr(spec, tgt))
     before_activation = spec["any_async"] and rng.random() < 0.3
     if spec["any_async"] and not before_activation:
         steps.append({"op": "activate"})
